@@ -447,11 +447,12 @@ func init() {
 		section{"exhaustive", c19ExhaustiveCases, c19Exhaustive},
 		section{"pairs", tiered(30, 600), c19Pairs},
 		section{"random", tiered(300, 8000), c19Random},
+		concurrentSection("C19"),
 	)
 	core.Register(&core.Monitor{
 		ID: "C19", Level: "exploration", Plan: plan, Run: run,
 		Rule: "bounded-exhaustive: all sequences of up to 6 (quick) / 7 (thorough) atoms over {a, B, 7, label-separator, backslash octet, dot octet, NUL octet, 'Z'+0xC8} rendered in the library's canonical presentation form, " +
-			"each in FQDN and relative spelling; plus random long names and all pairs within sampled blocks; oracle = the model's wire label sequence; non-trivial = distinct name or ordered pair",
+			"each in FQDN and relative spelling; plus random long names and all pairs within sampled blocks; oracle = the model's wire label sequence; the same operations called from 8 goroutines at once give the results they give alone; non-trivial = distinct name or ordered pair",
 		Assumptions: []string{"names are given in the canonical presentation form the library itself emits"},
 		MinObserved: []string{"enumerated_names", "pairs"},
 	})
